@@ -1324,6 +1324,22 @@ class Exec(object):
             lo = self.eval(e.slice.lower, st, ctx) if e.slice.lower is not None else None
             hi = self.eval(e.slice.upper, st, ctx) if e.slice.upper is not None else None
             if e.slice.step is not None:
+                stp = self.eval(e.slice.step, st, ctx)
+                if lo is None and hi is None and is_true(z3.And(is_Int(stp), ival(stp) == -1)) and \
+                        BI.static_tag(obj) == "ref" and BI.ref_kind(self, obj) in (T_LIST, T_TUPLE):
+                    # x[::-1]: a new list holding the reversed sequence
+                    from .vals import u_rev, rev_facts
+                    seq = st.heap.lget(rval(obj))
+                    self.assumptions.append(rev_facts(seq))
+                    return BI.new_list_seq(self, st, u_rev(seq), T_LIST)
+                if lo is None and hi is None and is_true(z3.And(is_Int(stp), ival(stp) == -1)):
+                    from .vals import u_rev, rev_facts
+                    self.raise_if(st, ctx, z3.Not(BI.is_list(obj)), "TypeError", node=e)
+                    if st.dead:
+                        return VNone
+                    seq = st.heap.lget(rval(obj))
+                    self.assumptions.append(rev_facts(seq))
+                    return BI.new_list_seq(self, st, u_rev(seq), T_LIST)
                 self.unsupported(st, ctx, "slice step", e)
                 return VNone
             return BI.get_slice(self, st, ctx, obj, lo, hi, e)
